@@ -289,20 +289,22 @@ func (s *IndexedState) Add(ctx *Context, id string, x Map) (string, error) {
 			fact := s.IdToFact[id]
 			js, err = json.Marshal(&fact)
 		}
-		return id, err
+		if err != nil {
+			return "", err
+		}
+
+		// Memory and storage are updated in one locked section:
+		// otherwise two overlapping writers of one id could leave
+		// the value of the one in memory and the value of the
+		// other in storage.
+		d := Pair{[]byte(id), js}
+		if err = s.Store.Add(ctx, s.Name, &d); err != nil {
+			Log(WARN, ctx, "IndexedState.Add", "state", s.Name, "factjs", string(js), "id", id, "error", err)
+			return "", err
+		}
+		return id, nil
 	}()
 
-	if nil != err {
-		return "", err
-	}
-
-	d := Pair{[]byte(id), js}
-
-	err = s.Store.Add(ctx, s.Name, &d)
-	if err != nil {
-		Log(WARN, ctx, "IndexedState.Add", "state", s.Name, "factjs", string(js), "id", id, "error", err)
-		return "", err
-	}
 	return id, err
 }
 
